@@ -22,3 +22,4 @@ open Lungo.C02
 #print axioms Lungo.Expected.collApply_fresh
 #print axioms failed_call_invisible
 #print axioms failed_call_views
+#print axioms failed_calls_run
